@@ -49,6 +49,7 @@ CONSTANTS
   CondVals,    \* value kinds enumerated in condition vectors
   CondTypes,   \* datatypes enumerated in condition vectors
   RuleKinds,   \* parameter kinds that are also enumerated for a sampler used downstream of a rule
+  CondScopes,  \* rule scopes enumerated in condition vectors
   Faithful     \* TRUE: the deviations the real code is known to have are successors of Eval
 
 VARIABLES v, phase, outcome, why, act
@@ -162,7 +163,7 @@ AllCondTypes == {"absent", "string", "int", "float", "bool"}
 AllCondVals == {"absent", "int", "str", "numstr", "bool", "float", "nan", "null", "list", "intlist", "emptylist", "mixedlist",
                 "badregex", "emptystr"}
 CondVectors == IF "RulesBasedSampler" \in CfgSamplers
-               THEN { Cfg("RulesBasedSampler", sc, "Cond", o, d, k) : sc \in {"span", "trace"}, o \in CondOps, d \in CondTypes, k \in CondVals }
+               THEN { Cfg("RulesBasedSampler", sc, "Cond", o, d, k) : sc \in CondScopes, o \in CondOps, d \in CondTypes, k \in CondVals }
                ELSE {}
 
 \* the sampler choice of an environment itself
@@ -288,7 +289,7 @@ ASSUME \A s \in CfgSamplers \cap LeafSamplers : \A p \in ParamsOf(s) : \A y \in 
 ASSUME Endpoints \subseteq AllEndpoints /\ CTypes \subseteq AllCTypes /\ Comps \subseteq AllComps
 ASSUME Shapes \subseteq AllShapes /\ Hdrs \subseteq AllHdrs /\ ReqMode \in {"star", "full"}
 ASSUME CondOps \subseteq AllOps /\ CondVals \subseteq AllCondVals /\ CondTypes \subseteq AllCondTypes
-ASSUME CfgSamplers \subseteq LeafSamplers \cup {"RulesBasedSampler"}
+ASSUME CfgSamplers \subseteq LeafSamplers \cup {"RulesBasedSampler"} /\ CondScopes \subseteq {"span", "trace"}
 \* a deviation is only ever listed for a vector that exists
 ASSUME \A x \in Vectors : \A d \in KnownDevs(x) : d.outcome \in {"crash", "hang"} /\ d.why # ""
 
